@@ -200,6 +200,7 @@ type c03Built struct {
 	ran      *bool
 	binder   *middleware.UntypedRequestBinder
 	param    spec.Parameter
+	doc      *loads.Document
 }
 
 var c03Cache = map[string]*c03Built{}
@@ -218,7 +219,7 @@ func c03Build(key string, d *c03Decl) *c03Built {
 	api := untyped.NewAPI(doc)
 	api.RegisterConsumer("application/x-www-form-urlencoded", runtime.DiscardConsumer)
 	api.RegisterConsumer("multipart/form-data", runtime.DiscardConsumer)
-	b := &c03Built{captured: new(map[string]interface{}), ran: new(bool)}
+	b := &c03Built{captured: new(map[string]interface{}), ran: new(bool), doc: doc}
 	method, pattern := d.route()
 	api.RegisterOperation(strings.ToLower(method), pattern, runtime.OperationHandlerFunc(func(params interface{}) (interface{}, error) {
 		*b.ran = true
@@ -299,6 +300,19 @@ var c03Locs = map[string]bool{"query": true, "header": true, "path": true, "form
 var c03Scalars = map[string]bool{"string": true, "integer": true, "number": true, "boolean": true}
 
 func c03Exec(in []string) (out []string) {
+	if len(in) > 0 && (in[0] == "M" || in[0] == "MB") {
+		return c03ExecMulti(in) // several parameters of one operation (c03m.go)
+	}
+	if len(in) > 0 && (in[0] == "F" || in[0] == "FB" || in[0] == "FS") {
+		return c03ExecFile(in) // parameters of a form request given part by part (c03x.go)
+	}
+	target, fmode := "", ""
+	if len(in) == 16 && in[0] == "S" { // a struct target: two more fields (c03x.go)
+		target, fmode = in[1], in[2]
+		in = append([]string{"S"}, in[3:]...)
+	} else if len(in) > 0 && in[0] == "S" {
+		return []string{"INVALID"}
+	}
 	if len(in) != 14 {
 		return []string{"INVALID"}
 	}
@@ -373,13 +387,13 @@ func c03Exec(in []string) (out []string) {
 	}()
 
 	// ---- the request
-	target := "/op"
+	urlPath := "/op"
 	if d.in == "path" {
 		pv := ""
 		if len(values) > 0 {
 			pv = values[len(values)-1]
 		}
-		target = "/op/" + url.PathEscape(pv)
+		urlPath = "/op/" + url.PathEscape(pv)
 	}
 	var body io.Reader
 	ctype := ""
@@ -392,7 +406,7 @@ func c03Exec(in []string) (out []string) {
 	switch d.in {
 	case "query":
 		if sent {
-			target += "?" + q.Encode()
+			urlPath += "?" + q.Encode()
 		}
 	case "form":
 		body, ctype = strings.NewReader(q.Encode()), "application/x-www-form-urlencoded"
@@ -425,14 +439,14 @@ func c03Exec(in []string) (out []string) {
 		case "query":
 			decoyHeader = true
 		case "header", "path", "form", "mform":
-			if strings.Contains(target, "?") {
-				target += "&" + dq.Encode()
+			if strings.Contains(urlPath, "?") {
+				urlPath += "&" + dq.Encode()
 			} else {
-				target += "?" + dq.Encode()
+				urlPath += "?" + dq.Encode()
 			}
 		}
 	}
-	req := httptest.NewRequest(method, "http://srv.test"+target, body)
+	req := httptest.NewRequest(method, "http://srv.test"+urlPath, body)
 	if ctype != "" {
 		req.Header.Set("Content-Type", ctype)
 	}
@@ -502,6 +516,14 @@ func c03Exec(in []string) (out []string) {
 			status = errors.DefaultHTTPCode
 		}
 		return c03Err(d.name, status, code, msg)
+	case "S":
+		var rp middleware.RouteParams
+		if d.in == "path" && sent {
+			for _, v := range values {
+				rp = append(rp, middleware.RouteParam{Name: sentKey, Value: v})
+			}
+		}
+		return c03BindStruct(b, d, req, rp, target, fmode)
 	}
 	panic("C03: unknown stream " + in[0])
 }
@@ -838,6 +860,14 @@ func c03Table(emit func(in ...string)) {
 }
 
 func c03Gen(r *proto.Rng, n int, tier string, emit func(in ...string)) {
+	defer func() {
+		// the two streams of the deepening (c03x.go), after the others so that those are unchanged for a
+		// seed: form requests part by part (type: file), struct targets
+		c03GenFile(r, n/8, tier, emit)
+		c03GenStruct(r, n*2/5, tier, emit)
+		// several declared parameters of one operation against one request (c03m.go)
+		c03GenMulti(r, n/4, tier, emit)
+	}()
 	c03Table(emit)
 	perDecl := 8
 	for emitted := 0; emitted < n; {
@@ -1049,5 +1079,5 @@ func c03MakeCorpus() [][]string {
 			c03Case(st, "limit", "query", "boolean", "", "-", "", "-", false, false, "-", "-", "limit", []string{"banana"}),
 		)
 	}
-	return c03Corpus
+	return append(append(c03Corpus, c03CorpusX()...), c03CorpusMulti()...)
 }
